@@ -604,12 +604,14 @@ class NoPanic:
                         cls[b] = "inc"
                     elif vals == [c // 2 for c in grid]:
                         cls[b] = "halve"
+                    elif vals == [(c + 1) // 2 for c in grid]:
+                        cls[b] = "halve-ceil"       # (n + 1) / 2 < n for n >= 2 as well
                     elif vals == grid:
                         pass
                     else:
                         bad = True
                         break
-                if bad or "halve" not in cls.values():
+                if bad or not ({"halve", "halve-ceil"} & set(cls.values())):
                     continue
                 # (a) the loop is left only where staying requires n >= 2
                 ef = flow.edge_facts(fn, evs)
@@ -656,6 +658,10 @@ class NoPanic:
                             st = 1
                         elif c == "halve":
                             if st == 2:
+                                return False
+                            st = 2
+                        elif c == "halve-ceil":
+                            if st != 0:
                                 return False
                             st = 2
                         for x in fn.succ(b):
